@@ -97,6 +97,11 @@ ResetIndex(S, lv, drop, dev) ==
   IF S.index = <<>> THEN Err("SchemaInitError")
   ELSE LET names == IF lv = <<>> THEN LevelNames(S) ELSE lv
        IN IF \E j \in 1..Len(names) : names[j] \notin Range(LevelNames(S)) THEN Err("SchemaInitError")
+          (* as shipped, the levels of a MultiIndex are kept in a dict keyed by name: when one key was set twice    *)
+          (* (set_index(k, append=True, drop=False) twice) removing the levels dies with KeyError                    *)
+          ELSE IF "ResetIndexDuplicateLevelNamesKeyError" \in dev /\ Len(S.index) > 1
+                  /\ \E a, b \in 1..Len(S.index) : a # b /\ S.index[a].key = S.index[b].key /\ S.index[a].key \in Range(names)
+               THEN Err("Leak:KeyError")
           ELSE LET moved == FilterSeq(S.index, LAMBDA l : l.key \in Range(names))
                    rest  == FilterSeq(S.index, LAMBDA l : l.key \notin Range(names))
                    S1 == [S EXCEPT !.index = rest]
